@@ -207,6 +207,7 @@ int main(int argc, char **argv) {
         else if (a == "--foreign") foreign.push_back(next());
         else if (a == "--cpu-limit") g_cpu_limit = atoi(next().c_str());
         else if (a == "--max-shrink") g_max_shrink = atol(next().c_str());
+        else if (a == "--wall-limit") g_wall_limit = atoi(next().c_str());
         else if (a == "--props") { printf("%s\n", exec_props); return 0; }
         else return usage();
     }
